@@ -40,7 +40,12 @@ var NewReaderDict = flate.NewReaderDict
 func NewReader(r io.Reader) io.ReadCloser {
 	rr := &decompressor{}
 	rr.r = r
-	rr.rBuf = bufio.NewReader(r)
+	if br, ok := r.(*bufio.Reader); ok {
+		// use the caller's buffered reader whatever its size, as Reset does
+		rr.rBuf = br
+	} else {
+		rr.rBuf = bufio.NewReader(r)
+	}
 	return rr
 }
 
